@@ -57,7 +57,7 @@ type c18case struct {
 	Flows []c18flow `json:"flows"` // 0..2 message flows; process indices: executables first, then waiting
 	Mode  string    `json:"mode"`  // single | seq | conc | early
 	K     int       `json:"k"`     // number of waits (seq, conc)
-	Sched string    `json:"sched"` // free | latefast | lateall | holdinst
+	Sched string    `json:"sched"` // free | latefast | lateall | lateinst | holdinst
 	Pert  int       `json:"pert"`  // perturbation level
 	Seed  uint64    `json:"seed"`
 }
@@ -156,6 +156,13 @@ func c18cases(tier string) []c18case {
 	//    StartWith of the instantiated process until the throwing process has finished
 	add(c18case{Execs: []string{"thr0"}, Waits: []string{"wtask"}, Flows: []c18flow{{0, 1, "start"}}, Mode: "single", K: 1, Sched: "holdinst"})
 	add(c18case{Execs: []string{"thr1"}, Waits: []string{"wtask"}, Flows: []c18flow{{0, 1, "start"}}, Mode: "single", K: 1, Sched: "holdinst"})
+	// D'. the same window in run: the watcher of an INSTANTIATED process is held before it subscribes until the
+	//     instantiated process has finished (on a tree where run subscribes first, the held point precedes the start)
+	for _, w := range []string{"wtriv", "wtask"} {
+		add(c18case{Execs: []string{"thr1"}, Waits: []string{w}, Flows: []c18flow{{0, 1, "start"}}, Mode: "single", K: 1, Sched: "lateinst"})
+	}
+	add(c18case{Execs: []string{"thr0"}, Waits: []string{"wtriv"}, Flows: []c18flow{{0, 1, "start"}}, Mode: "single", K: 1, Sched: "lateinst"})
+	add(c18case{Execs: []string{"thr1", "thr1"}, Waits: []string{"wtriv"}, Flows: []c18flow{{0, 2, "start"}, {1, 2, "start"}}, Mode: "single", K: 1, Sched: "lateinst"})
 	// E. perturbed schedules (thorough)
 	if tier == "thorough" {
 		base := append([]c18case(nil), cs...)
@@ -513,7 +520,11 @@ func c18sub(spec string) {
 	wait := func(d time.Duration) {
 		nwait++
 		n := nwait
-		s.Say("op wait %d", n)
+		if d < time.Second {
+			s.Say("op wait %d short", n) // may expire although the set is complete (loaded machine): `false` proves nothing
+		} else {
+			s.Say("op wait %d", n)
+		}
 		r := s.Wait(d)
 		// the set's watchers are one relay hop closer to the member processes than this recorder: let the traces
 		// that caused the return arrive before the return is recorded
@@ -563,6 +574,12 @@ func c18sub(spec string) {
 			s.Say("obs startall blocked")
 		}
 		s.Quiesce(4 * timeSecond)
+	}
+	if c.Sched == "lateinst" && startReturned {
+		// from now on the only watchers that reach the point are those of instantiated processes
+		ctl.Hold(pSub)
+		held = pSub
+		s.Say("op hold %s", pSub)
 	}
 	if c.Sched == "holdinst" {
 		// from now on the only StartWith calls are the run loop's instantiations
